@@ -1,15 +1,68 @@
 /-
   C20 — Failed store operations leave the store unchanged.
+
+  For both store models: whenever a call returns an error, the STATE after the call is the
+  state before it (hence every query answers the same, and a rejected batch can be corrected
+  and inserted again).  In-memory store: for every reachable state (any history), proved for
+  the code AFTER the `fix:` commit f29ec8a (hash pre-check in `insert`); the code before it
+  violates the property (`mem_prefix_counterexample`).  Redb store: for every state whatsoever,
+  by atomicity of the write transaction (the named hypothesis encoded in `RedbStore.writeTx`).
 -/
-import Lumina.Model.Store
+import Lumina.Proofs.StoreHist
 import Lumina.Gen.C20
 
-open Lumina.Model.Store
+open Lumina.Model.Store Lumina.Spec.C19
+open Lumina.Model
+open Lumina.Proofs.Store
 
 namespace Lumina.Props.C20
 
 /-- the models are of schema version 3 of the redb store -/
 theorem schema_version : Lumina.Gen.C20.SCHEMA_VERSION = 3 := by decide
+
+/-- IN-MEMORY STORE: after any history, a call that fails (any error kind: constraints,
+    neighbour verification, header verification, duplicate hash anywhere in the batch, not
+    found) leaves the state exactly as it was. -/
+theorem mem_failed_op_unchanged (v : Hdr → Hdr → Bool) (ops : List Op) (op : Op)
+    (hw : AllWf ops) (hop : op.wf = true) :
+    let m := (runOps (MemStore.step v) MemStore.new ops).1
+    (MemStore.step v m op).2.isErr = true → (MemStore.step v m op).1 = m := by
+  obtain ⟨_, r, hi⟩ := mem_run_sim v ops hw _ _ rm_init absInv_init
+  exact (mem_step_sim r hi v op hop).2.2
+
+/-- … therefore every query answers the same before and after the failed call -/
+theorem mem_failed_op_observations_unchanged (v : Hdr → Hdr → Bool) (ops : List Op) (op q : Op)
+    (hw : AllWf ops) (hop : op.wf = true) :
+    let m := (runOps (MemStore.step v) MemStore.new ops).1
+    (MemStore.step v m op).2.isErr = true →
+      (MemStore.step v (MemStore.step v m op).1 q).2 = (MemStore.step v m q).2 := by
+  intro m h
+  rw [mem_failed_op_unchanged v ops op hw hop h]
+
+/-- … and a rejected batch can be corrected and re-inserted: the store behaves on the next
+    call as if the failed call had never been made -/
+theorem mem_failed_op_then (v : Hdr → Hdr → Bool) (ops : List Op) (op next : Op)
+    (hw : AllWf ops) (hop : op.wf = true) :
+    let m := (runOps (MemStore.step v) MemStore.new ops).1
+    (MemStore.step v m op).2.isErr = true →
+      MemStore.step v (MemStore.step v m op).1 next = MemStore.step v m next := by
+  intro m h
+  rw [mem_failed_op_unchanged v ops op hw hop h]
+
+/-- REDB STORE: in ANY state a failed call leaves the tables unchanged (transaction abort). -/
+theorem redb_failed_op_unchanged (v : Hdr → Hdr → Bool) (t : Tables) (op : Op) :
+    (RedbStore.step v t op).2.isErr = true → (RedbStore.step v t op).1 = t :=
+  redb_err_unchanged v t op
+
+/-- the in-memory store never panics (a panic could leave a partial mutation behind) -/
+theorem mem_no_panic (v : Hdr → Hdr → Bool) (ops : List Op) (op : Op)
+    (hw : AllWf ops) (hop : op.wf = true) :
+    (MemStore.step v (runOps (MemStore.step v) MemStore.new ops).1 op).2 ≠ .err .panic := by
+  obtain ⟨_, r, hi⟩ := mem_run_sim v ops hw _ _ rm_init absInv_init
+  rw [(mem_step_sim r hi v op hop).1]
+  exact abs_never_panics v _ op
+
+/-! ### the finding (code before the `fix:` commit) and non-vacuity -/
 
 def cexV : Hdr → Hdr → Bool := fun _ _ => true
 def hd (i height hash : Nat) : Hdr := ⟨i, height, hash, true⟩
@@ -18,13 +71,27 @@ def cexStore : MemStore := (MemStore.stepWith false cexV MemStore.new (.insert [
 /-- a batch 3..4 whose second header repeats the hash of the stored header 1 -/
 def cexBatch : List Hdr := [hd 2 3 102, hd 3 4 100]
 
-/-- FINDING (code before the `fix:` commit, `precheck = false`): the in-memory store rejects the
-    batch with `HashExists`, but `get_by_height(3)` answers differently afterwards. -/
+/-- FINDING (code before the fix, `precheck = false`): the in-memory store rejects the batch
+    with `HashExists`, but `get_by_height(3)` answers differently afterwards. -/
 theorem mem_prefix_counterexample :
     (MemStore.stepWith false cexV cexStore (.insert cexBatch)).2 = .err (.hashExists 100) ∧
     (MemStore.stepWith false cexV (MemStore.stepWith false cexV cexStore (.insert cexBatch)).1 (.getByHeight 3)).2
       = .ok (.hdr (hd 2 3 102)) ∧
     (MemStore.stepWith false cexV cexStore (.getByHeight 3)).2 = .err .notFound := by
+  decide
+
+/-- the same call on the fixed code: same error, state untouched -/
+example : (MemStore.step cexV cexStore (.insert cexBatch)).2 = .err (.hashExists 100) ∧
+    (MemStore.step cexV cexStore (.insert cexBatch)).1.headers = cexStore.headers ∧
+    (MemStore.step cexV (MemStore.step cexV cexStore (.insert cexBatch)).1 (.getByHeight 3)).2 = .err .notFound := by
+  decide
+
+/-- failing calls of every kind exist (the hypotheses of the theorems are not vacuous) -/
+example : (MemStore.step cexV cexStore (.insert [hd 1 2 101])).2 = .err (.constraintsNotMet .overlap) ∧
+    (MemStore.step cexV cexStore (.insert [hd 7 9 107, hd 9 11 109])).2 = .err .headersVerificationFailed ∧
+    (MemStore.step (fun _ _ => false) cexStore (.insert [hd 2 3 102])).2 = .err .neighborsVerificationFailed ∧
+    (MemStore.step cexV cexStore (.remove 7)).2 = .err .notFound ∧
+    (RedbStore.step cexV RedbStore.new (.mark 3)).2 = .err .notFound := by
   decide
 
 end Lumina.Props.C20
